@@ -25,7 +25,7 @@ func safeVerify(p *merkle.SimpleProof, i, n int, leaf, root []byte) (ok bool, pv
 	defer func() {
 		if r := recover(); r != nil {
 			pv = r
-			stack = shortStack()
+			stack = panicStack()
 		}
 	}()
 	ok = p.Verify(i, n, leaf, root)
@@ -157,7 +157,9 @@ func checkTree(n int, full bool, leafLen int) {
 			if i < 0 {
 				key = "verify-negative-index-panic"
 			}
-			run.Violation(key, fmt.Sprintf("Verify(index %d, total %d) panicked (%s): %v [%s]", i, t, ctx, pv, st), wit(map[string]interface{}{"index": i, "total": t, "ctx": ctx}))
+			violate(key, func() (string, interface{}) {
+				return fmt.Sprintf("Verify(index %d, total %d) panicked (%s): %v [%s]", i, t, ctx, pv, st), wit(map[string]interface{}{"index": i, "total": t, "ctx": ctx})
+			})
 			return false, false
 		}
 		return v, true
@@ -249,9 +251,12 @@ func checkTree(n int, full bool, leafLen int) {
 				default:
 					key = "proof-verifies-under-other-total-different-path-shape"
 				}
-				run.Violation(key, fmt.Sprintf("proof of item %d in a tree of %d items (path %q) also verifies as (index %d, total %d) (path %q) against the same root", i, n, shapes[i], x, t, refShape(x, t)),
-					wit(map[string]interface{}{"proof_index": i, "proof_total": n, "path": shapes[i], "verified_index": x, "verified_total": t, "verified_path": refShape(x, t),
-						"leaf": hex.EncodeToString(leaves[i]), "aunts": auntsHex(p.Aunts), "root": hex.EncodeToString(root)}))
+				x, t := x, t
+				violate(key, func() (string, interface{}) {
+					return fmt.Sprintf("proof of item %d in a tree of %d items (path %q) also verifies as (index %d, total %d) (path %q) against the same root", i, n, shapes[i], x, t, refShape(x, t)),
+						wit(map[string]interface{}{"proof_index": i, "proof_total": n, "path": shapes[i], "verified_index": x, "verified_total": t, "verified_path": refShape(x, t),
+							"leaf": hex.EncodeToString(leaves[i]), "aunts": auntsHex(p.Aunts), "root": hex.EncodeToString(root)})
+				})
 			}
 		}
 		// --- other leaves ---
